@@ -436,7 +436,7 @@ DeployEv(e) ==
   LET g2 == r.g
       o == ObsOf(e, h)
       good == ~e.panic /\ ~Broken(o)
-      retok == IF e.fault_at = 0 THEN e.ret = Len(e.prog) ELSE e.ret = "err"
+      retok == IF e.fault_at = 0 THEN e.ret = "count:" \o ToString(Len(e.prog)) ELSE e.ret = "err"
       dir == e.direct
       sameasapi == good /\ ~Broken(dir) /\ Complete(o) = Complete(dir)
       c14 == (IF ~e.panic THEN {} ELSE {F(e, "C14", "deploying the script panicked")})
